@@ -17,8 +17,11 @@ EXPLANATION = (
     "per parameter; every instance attribute (which to_xml writes under its own name) must be fed by the constructor parameter of the "
     "same name (otherwise it is dropped into **junk on re-parse), the text by 'value', and the set and order of attributes must be the "
     "same on every path. C03.WRITE: to_xml is interpreted on instances whose attributes are symbols, 0, '' and None: everything but None "
-    "must be written under its own name, the text from 'value', children in order. C03.READ: from_xml (both hierarchies) passes all XML "
-    "attributes as keywords to the class selected from the registry, children in document order, text stripped and empty text absent."
+    "must be written under its own name, the text from 'value', children in order. C03.READ: from_xml is abstractly interpreted (constructors "
+    "instantiated) on abstract XML elements of every registered kind with two sub-elements each, in registry order and in reverse order "
+    "within one interpreter state (so a cache shared between calls or between the two hierarchies shows): each element must parse to the "
+    "class of its own hierarchy whose tag it carries, every XML attribute must arrive in the same-named attribute, text stripped, empty "
+    "text absent, children in document order; unknown tags raise."
 )
 NOT_DECIDED = "ElementTree's escaping/unescaping over all XML-representable text, attribute order produced by foreign serializers."
 ASSUMPTIONS = [
